@@ -148,6 +148,22 @@ def r20(ctx):
                        'atomic rename from the private directory (%s) into the cache directory (%s)' % (src_state, dst_state))
             ctx.decide('R20.3', nc.qual, 'publication after build_extension.run()', c.lineno > run[0].lineno, c, 'only a finished module is published')
             ctx.decide('R20.3', nc.qual, 'import after publication', imp[0].lineno > c.lineno, imp[0])
+            # the build routine is entered only after importing the cached entry FAILED (missing or unloadable), so the
+            # publication must replace whatever is there: it may not depend on the target being absent
+            conds = guards.path_conditions(c, stop=fn)
+            fs_tests = [nd for (_t, _p, nd) in conds if any(isinstance(x, ast.Call) and (call_name(x) or '') in
+                        ('os.path.exists', 'os.path.isfile', 'os.path.lexists', 'os.access', 'os.path.getsize') for x in ast.walk(nd))]
+            if not conds:
+                ctx.met('R20.3', nc.qual, 'publication is unconditional once the build succeeded', c,
+                        'an unloadable cache entry (truncated by a crash) is overwritten by the rebuilt module')
+            elif fs_tests:
+                ctx.violated('R20.3', nc.qual, 'publication is unconditional once the build succeeded', c,
+                             'the rename is skipped depending on the file system state (`%s`): this routine runs only after importing the cached '
+                             'entry failed, so an existing but unloadable entry is never repaired and every later request fails again'
+                             % src(fs_tests[0])[:80])
+            else:
+                ctx.undecided('R20.3', nc.qual, 'publication is unconditional once the build succeeded', c,
+                              'guarded by %s' % ' and '.join(t for (t, _p, _n) in conds)[:100])
         # cleanup in finally
         tries = [s for s in stmts if isinstance(s, ast.Try) and s.finalbody]
         ok = any(any(isinstance(c, ast.Call) and call_name(c) in ('shutil.rmtree',) for c in ast.walk(ast.Module(t.finalbody, []))) for t in tries) \
